@@ -73,7 +73,7 @@ func c02NewEnv(t *testing.T) *c02Env {
 			c.close()
 			continue
 		}
-		if err := vcExec(ld.s, "CREATE TABLE reg (k INTEGER PRIMARY KEY, v INTEGER)", "CREATE TABLE big (x INTEGER)"); err != nil {
+		if err := vcExec(ld.s, "CREATE TABLE reg (k INTEGER PRIMARY KEY, v INTEGER)", "CREATE TABLE big (x INTEGER)", "CREATE TABLE seq (tag INTEGER)"); err != nil {
 			c.close()
 			continue
 		}
@@ -386,11 +386,12 @@ func (e *c02Env) workload(w *vWriter, in c02WorkIn) {
 	}
 	// one request as the HTTP layer does it: the local store first, then the leader
 	doWrite := func(s *Store, k int, v int64) (bool, bool) { // (acked, definitelyNotApplied)
-		sql := fmt.Sprintf("INSERT OR REPLACE INTO reg(k, v) VALUES(%d, %d)", k, v)
+		// the register write, and a row tagged with the (unique) value: a statement applied twice shows
+		sqls := []string{fmt.Sprintf("INSERT OR REPLACE INTO reg(k, v) VALUES(%d, %d)", k, v), fmt.Sprintf("INSERT INTO seq(tag) VALUES(%d)", v)}
 		for hop := 0; hop < 2; hop++ {
-			rs, _, err := s.Execute(ctx, executeRequestFromStrings([]string{sql}, false, false))
+			rs, _, err := s.Execute(ctx, executeRequestFromStrings(sqls, false, true))
 			if err == nil {
-				if len(rs) == 1 && rs[0].GetError() == "" {
+				if len(rs) == 2 && rs[0].GetError() == "" && rs[1].GetError() == "" {
 					return true, false
 				}
 				return false, true
@@ -533,6 +534,17 @@ func (e *c02Env) workload(w *vWriter, in c02WorkIn) {
 			tags = append(tags, "key-too-long-unchecked")
 		}
 	}
+	// every write call took effect at most once, the acknowledged ones exactly once
+	var writes []c02Op
+	for _, o := range hist {
+		if o.Kind == "w" {
+			writes = append(writes, o)
+		}
+	}
+	auditSig, auditMsg := "", ""
+	if l := e.c.leader(15 * time.Second); l != nil && e.c.settle(l, 10*time.Second) {
+		auditSig, auditMsg = c02TagAudit(l.s, writes)
+	}
 	tags = append(tags, fmt.Sprintf("leader-changes=%d", changes))
 	c := VCase{Input: in, Key: fmt.Sprintf("%s/%d-ops", key, len(hist)), Tags: tags, Nontrivial: changes >= 1 && concurrentRW}
 	if len(bad) > 0 {
@@ -542,6 +554,9 @@ func (e *c02Env) workload(w *vWriter, in c02WorkIn) {
 		if len(c.OracleFail) > 4000 {
 			c.OracleFail = c.OracleFail[:4000]
 		}
+	}
+	if c.OracleFail == "" && auditSig != "" {
+		c.Sig, c.OracleFail = auditSig, auditMsg
 	}
 	w.Emit(c)
 }
@@ -569,6 +584,10 @@ func TestVerif_C02(t *testing.T) {
 			var in c02TraceIn
 			json.Unmarshal(raw, &in)
 			env.lag(w, in)
+		case "deposed-writes":
+			var in c02WriteIn
+			json.Unmarshal(raw, &in)
+			c02RunDeposedWrites(t, w, []c02WriteIn{in})
 		case "first":
 			var in c02FirstIn
 			json.Unmarshal(raw, &in)
@@ -619,6 +638,15 @@ func TestVerif_C02(t *testing.T) {
 	} else {
 		w.Emit(VCase{Input: c02FirstIn{Kind: "first", Situation: "after-cut-off"}, Key: "gated-cluster", Inconcl: "gated cluster did not start"})
 	}
+	// non-idempotent writes in flight on a leader that is deposed by its successor
+	var dw []c02WriteIn
+	for r := 0; r < vN(1, 8); r++ {
+		dw = append(dw, c02WriteIn{Kind: "deposed-writes", K: 2, Entry: "execute", Round: r}, c02WriteIn{Kind: "deposed-writes", K: 1, Entry: "request", Round: r})
+		if vTier() == "thorough" {
+			dw = append(dw, c02WriteIn{Kind: "deposed-writes", K: 3, Entry: "request", Round: r}, c02WriteIn{Kind: "deposed-writes", K: 1, Entry: "execute", Round: r})
+		}
+	}
+	c02RunDeposedWrites(t, w, dw)
 	seed := vSeed()
 	nw := vN(2, 60)
 	for i := 0; i < nw; i++ {
